@@ -107,10 +107,13 @@ func runC02(r *Run) {
 				pp, isP := v.(*ssa.Parameter)
 				return isP && pp.Name() == "path"
 			}) != nil
-			fromDetect := dependsOn(arg, func(v ssa.Value) bool {
-				pp, isP := v.(*ssa.Parameter)
-				return isP && pp.Name() == "detectionPath"
-			}) != nil
+			// (content only: a slice of `path` whose bounds were measured on the detection path is still text of `path`)
+			fromDetect := false
+			for _, prm := range f.Params {
+				if prm.Name() == "detectionPath" && contentFrom(arg, prm) {
+					fromDetect = true
+				}
+			}
 			r.check(fromParams && !fromDetect, fmt.Sprintf("getMatch:CheckConstraint#%d:argument-is-captured-value", i), r.pos(c.Instr), "constraints are evaluated on the value stored in params (the one Params reports)",
 				"constraints are evaluated on a value derived from the normalised detection path, not on the captured value Params reports: with CaseSensitive=false /flag/:v<bool> accepts tRuE although the reported value violates the constraint")
 		}
@@ -129,6 +132,31 @@ func runC02(r *Run) {
 		for _, br := range ifsOnValue(f, plen[0].Value()) {
 			if slot, ok := br.eqIntSlot(0, true); ok {
 				cut[edge{br.If.Block(), slot}] = true // empty capture: optional parameter absent, or rejected
+			}
+		}
+		// the same test kept in a flag (`omitted := segment.IsOptional && i == 0`): where the flag is true the capture is empty
+		for _, br := range branchesIn(f) {
+			ph, ok := stripValue(br.Info.Root).(*ssa.Phi)
+			if !ok || br.Info.Op != token.ILLEGAL {
+				continue
+			}
+			onlyEmpty, any := true, false
+			for _, e := range ph.Edges {
+				if b, isB := constBool(asConst(e)); isB && !b {
+					continue
+				}
+				ci := decompose(e)
+				k, isK := constInt(ci.Const)
+				if stripValue(ci.Root) == plen[0].Value() && isK && k == 0 && ((ci.Op == token.EQL && !ci.Neg) || (ci.Op == token.NEQ && ci.Neg)) {
+					any = true
+					continue
+				}
+				onlyEmpty = false
+			}
+			if onlyEmpty && any {
+				if slot, ok := br.truthSlot(true); ok {
+					cut[edge{br.If.Block(), slot}] = true
+				}
 			}
 		}
 		for i, st := range stores {
@@ -606,102 +634,128 @@ func runC02(r *Run) {
 					"non-greedy with a '/' present returns exactly the position of the first '/'",
 					"non-greedy last parameter may return something other than the position of the first '/' ("+bad+")")
 			}
-			// multi-byte compare part
-			fp := r.Fn("", "findParamLen")
-			slashIdx := byteSearchesIn(fp, '/')
-			if len(slashIdx) == 0 {
-				r.bad("findParamLen:slash-in-non-greedy", r.fpos(fp), "no search for '/' inside the candidate capture of a non-greedy parameter")
-			}
-			for _, c := range slashIdx {
-				cut := map[edge]bool{}
-				for _, br := range branchesIn(fp) {
-					if loadOfField(br.Info.Root, "routeSegment.IsGreedy") {
-						if s, ok := br.truthSlot(true); ok {
-							cut[edge{br.If.Block(), s}] = true
+			// multi-byte compare part: findParamLen itself, and a helper of the package it hands the found position to
+			// (`return paramLenUpTo(s, pos, segment.IsGreedy)`) — not the other functions it calls
+			func() {
+				fp := r.Fn("", "findParamLen")
+				scope := []*ssa.Function{fp}
+				for _, d := range callsIn(fp, false) {
+					g := d.Common.StaticCallee()
+					if g == nil || g.Pkg != fp.Pkg || len(g.Blocks) == 0 || d.Instr.Parent() != fp {
+						continue
+					}
+					for _, a := range d.Common.Args {
+						if dependsOn(a, func(v ssa.Value) bool {
+							c, ok := v.(*ssa.Call)
+							if !ok || len(c.Call.Args) != 2 {
+								return false
+							}
+							n := calleeName(&c.Call)
+							return (n == "strings.Index" || n == "strings.IndexByte") && dependsOn(c.Call.Args[1], func(x ssa.Value) bool { return loadOfField(x, "routeSegment.ComparePart") }) != nil
+						}) != nil {
+							scope = append(scope, g)
+							break
 						}
 					}
 				}
-				for _, e := range c.notFound {
-					cut[e] = true
+				var slashIdx []byteSearch
+				for _, g := range scope {
+					slashIdx = append(slashIdx, byteSearchesIn(g, '/')...)
 				}
-				_, hit := reach(pointAfter(c.call.Instr), func(in ssa.Instruction) bool {
-					ret, ok := in.(*ssa.Return)
-					if !ok {
-						return false
-					}
-					n, isC := constInt(asConst(retOperand(ret, 0)))
-					return !(isC && n == 0)
-				}, cut, nil)
-				r.check(hit == nil && len(c.notFound) > 0, "findParamLen:slash-in-non-greedy", r.pos(c.call.Instr),
-					"non-greedy capture containing '/' yields length 0 (no match)", "a non-greedy capture containing '/' can yield a non-zero length")
-			}
-			// every search for the delimiter that ends a parameter — whatever its length — is followed by that slash search
-			// before its position is returned as the length of a non-greedy capture
-			nd := 0
-			for _, d := range callsIn(fp, false) {
-				isDelim := false
-				switch {
-				case d.Name == "strings.Index" || d.Name == "strings.IndexByte":
-					needle := d.Common.Args[1]
-					isDelim = loadOfField(needle, "routeSegment.ComparePart")
-					if ix, ok := stripValue(needle).(*ssa.Index); ok && loadOfField(ix.X, "routeSegment.ComparePart") {
-						isDelim = true
-					}
-				case d.Common.StaticCallee() != nil && d.Common.StaticCallee().Pkg == fp.Pkg && d.Common.StaticCallee().Object() != nil && !d.Common.StaticCallee().Object().Exported() && d.Value() != nil:
-					// the search moved into a helper that is handed the delimiter and answers a position
-					if b, ok := d.Value().Type().Underlying().(*types.Basic); ok && b.Kind() == types.Int {
-						for _, a := range d.Common.Args {
-							if loadOfField(a, "routeSegment.ComparePart") {
-								isDelim = true
+				if len(slashIdx) == 0 {
+					r.bad("findParamLen:slash-in-non-greedy", r.fpos(fp), "no search for '/' inside the candidate capture of a non-greedy parameter")
+				}
+				for _, c := range slashIdx {
+					cut := map[edge]bool{}
+					for _, br := range branchesIn(c.call.Fn) {
+						if valueIsField(br.Info.Root, "routeSegment.IsGreedy") {
+							if s, ok := br.truthSlot(true); ok {
+								cut[edge{br.If.Block(), s}] = true
 							}
 						}
 					}
-				}
-				if !isDelim {
-					continue
-				}
-				nd++
-				if g := d.Common.StaticCallee(); g != nil && g.Pkg == fp.Pkg {
-					// searches gathered in the helper count as the searches they replace
-					inner := 0
-					for _, ic := range callsMatching(g, false, nameIs("strings.Index", "strings.IndexByte")) {
-						n := ic.Common.Args[1]
-						if ix, ok := stripValue(n).(*ssa.Index); ok {
-							n = ix.X
-						}
-						if valueIsField(n, "routeSegment.ComparePart") {
-							inner++
-						}
+					for _, e := range c.notFound {
+						cut[e] = true
 					}
-					if inner > 1 {
-						nd += inner - 1
-					}
-				}
-				cutG := map[edge]bool{}
-				for _, br := range branchesIn(fp) {
-					if loadOfField(br.Info.Root, "routeSegment.IsGreedy") {
-						if sl, ok := br.truthSlot(true); ok {
-							cutG[edge{br.If.Block(), sl}] = true
+					_, hit := reach(pointAfter(c.call.Instr), func(in ssa.Instruction) bool {
+						ret, ok := in.(*ssa.Return)
+						if !ok {
+							return false
 						}
-					}
+						n, isC := constInt(asConst(retOperand(ret, 0)))
+						return !(isC && n == 0)
+					}, cut, nil)
+					r.check(hit == nil && len(c.notFound) > 0, "findParamLen:slash-in-non-greedy", r.pos(c.call.Instr),
+						"non-greedy capture containing '/' yields length 0 (no match)", "a non-greedy capture containing '/' can yield a non-zero length")
 				}
-				dv := d.Value()
-				_, hit := reach(pointAfter(d.Instr), func(in ssa.Instruction) bool {
-					ret, ok := in.(*ssa.Return)
-					return ok && retOperand(ret, 0) == dv
-				}, cutG, func(in ssa.Instruction) bool {
-					for _, sc := range slashIdx {
-						if in == sc.call.Instr {
-							return true
+				// every search for the delimiter that ends a parameter — whatever its length — is followed by that slash search
+				// before its position is returned as the length of a non-greedy capture
+				nd := 0
+				for _, d := range callsIn(fp, false) {
+					isDelim := false
+					switch {
+					case d.Name == "strings.Index" || d.Name == "strings.IndexByte":
+						needle := d.Common.Args[1]
+						isDelim = loadOfField(needle, "routeSegment.ComparePart")
+						if ix, ok := stripValue(needle).(*ssa.Index); ok && loadOfField(ix.X, "routeSegment.ComparePart") {
+							isDelim = true
+						}
+					case d.Common.StaticCallee() != nil && d.Common.StaticCallee().Pkg == fp.Pkg && d.Common.StaticCallee().Object() != nil && !d.Common.StaticCallee().Object().Exported() && d.Value() != nil:
+						// the search moved into a helper that is handed the delimiter and answers a position
+						if b, ok := d.Value().Type().Underlying().(*types.Basic); ok && b.Kind() == types.Int {
+							for _, a := range d.Common.Args {
+								if loadOfField(a, "routeSegment.ComparePart") {
+									isDelim = true
+								}
+							}
 						}
 					}
-					return false
-				})
-				r.check(hit == nil, fmt.Sprintf("findParamLen:delimiter-search#%d:slash-checked", nd), r.pos(d.Instr),
-					"for a non-greedy parameter the found position is returned only after the capture was searched for '/'",
-					"the position of the delimiter is returned as the length of a non-greedy capture without looking for a '/' inside it: /:a-:b accepts /x/y-z with a = \"x/y\" — a named parameter spans a path segment boundary")
-			}
-			r.atLeast("delimiter searches in findParamLen", nd, 2)
+					if !isDelim {
+						continue
+					}
+					nd++
+					if g := d.Common.StaticCallee(); g != nil && g.Pkg == fp.Pkg {
+						// searches gathered in the helper count as the searches they replace
+						inner := 0
+						for _, ic := range callsMatching(g, false, nameIs("strings.Index", "strings.IndexByte")) {
+							n := ic.Common.Args[1]
+							if ix, ok := stripValue(n).(*ssa.Index); ok {
+								n = ix.X
+							}
+							if valueIsField(n, "routeSegment.ComparePart") {
+								inner++
+							}
+						}
+						if inner > 1 {
+							nd += inner - 1
+						}
+					}
+					cutG := map[edge]bool{}
+					for _, br := range branchesIn(fp) {
+						if valueIsField(br.Info.Root, "routeSegment.IsGreedy") {
+							if sl, ok := br.truthSlot(true); ok {
+								cutG[edge{br.If.Block(), sl}] = true
+							}
+						}
+					}
+					dv := d.Value()
+					_, hit := reach(pointAfter(d.Instr), func(in ssa.Instruction) bool {
+						ret, ok := in.(*ssa.Return)
+						return ok && retOperand(ret, 0) == dv
+					}, cutG, func(in ssa.Instruction) bool {
+						for _, sc := range slashIdx {
+							if in == sc.call.Instr {
+								return true
+							}
+						}
+						return false
+					})
+					r.check(hit == nil, fmt.Sprintf("findParamLen:delimiter-search#%d:slash-checked", nd), r.pos(d.Instr),
+						"for a non-greedy parameter the found position is returned only after the capture was searched for '/'",
+						"the position of the delimiter is returned as the length of a non-greedy capture without looking for a '/' inside it: /:a-:b accepts /x/y-z with a = \"x/y\" — a named parameter spans a path segment boundary")
+				}
+				r.atLeast("delimiter searches in findParamLen", nd, 2)
+			}()
 		})
 	})
 }
@@ -790,8 +844,10 @@ func byteSearchesIn(f *ssa.Function, ch byte) []byteSearch {
 		if isConstInt(v, int64(ch)) {
 			return true
 		}
-		str, ok := constString(asConst(v))
-		return ok && str == string(ch)
+		if str, ok := constString(asConst(v)); ok && str == string(ch) {
+			return true
+		}
+		return literalIs(v, string(ch)) // []byte(";")
 	}
 	for _, c := range callsIn(f, false) {
 		if len(c.Common.Args) != 2 || !isNeedle(c.Common.Args[1]) {
@@ -800,7 +856,7 @@ func byteSearchesIn(f *ssa.Function, ch byte) []byteSearch {
 		c := c
 		bs := byteSearch{call: c}
 		switch c.Name {
-		case "strings.IndexByte", "strings.Index", "strings.IndexRune", "bytes.IndexByte":
+		case "strings.IndexByte", "strings.Index", "strings.IndexRune", "bytes.IndexByte", "bytes.Index", "bytes.IndexRune":
 			for _, br := range ifsOnValue(f, c.Value()) {
 				if sl, ok := br.eqIntSlot(-1, true); ok {
 					bs.notFound = append(bs.notFound, edge{br.If.Block(), sl})
@@ -818,14 +874,14 @@ func byteSearchesIn(f *ssa.Function, ch byte) []byteSearch {
 				}
 			}
 			bs.isPos = func(v ssa.Value) bool { return v == c.Value() }
-		case "strings.Contains", "strings.ContainsRune", "strings.ContainsAny":
+		case "strings.Contains", "strings.ContainsRune", "strings.ContainsAny", "bytes.Contains", "bytes.ContainsRune", "bytes.ContainsAny":
 			for _, br := range ifsOnValue(f, c.Value()) {
 				if sl, ok := br.truthSlot(false); ok {
 					bs.notFound = append(bs.notFound, edge{br.If.Block(), sl})
 				}
 			}
 			bs.isPos = func(ssa.Value) bool { return false }
-		case "strings.Cut":
+		case "strings.Cut", "bytes.Cut":
 			var before ssa.Value
 			if c.Value() != nil && c.Value().Referrers() != nil {
 				for _, ref := range *c.Value().Referrers() {
